@@ -35,7 +35,11 @@ RULE = (
     "clip range, reward scales, horizon, loss weights, environment_terminates, normalize_targets, the encoder's "
     "encoder_activation_in_last_layer with and without normalize_targets; in ~23 % of the encoder-loss cases the "
     "reward-logit columns of the model head are multiplied by 30, 100 or 1000 so that the softmax probability of a "
-    "target bin is not representable in float32 while the documented cross-entropy is finite). Twin critics "
+    "target bin is not representable in float32 while the documented cross-entropy is finite; in ~28 % of the "
+    "double-DQN cases (ddqn, ddqn_per) output units of the ONLINE network are made exactly equal - zero output "
+    "kernel with equal biases, zero kernel columns with one common bias, or duplicated units, the common level "
+    "placed so that the tied group is the row maximum in some non-terminated rows - while the target network stays "
+    "generic: labels online-max-tie*). Twin critics "
     "are centred so that each is the minimum in some row; Huber deltas and clip bounds are placed at the median "
     "/ quartiles of the data (times 1, 0.7, 1.5, 1e-3, 1e3). Non-trivial = batch mixes terminated and "
     "non-terminated rows, the bootstrap term is >= 1% of the target scale and, where the loss has a branch "
@@ -51,7 +55,13 @@ ASSUMPTIONS = [
     "that its parameter step is minus the gradient",
     "the sum over the two critics of the per-critic mean loss is taken as the documented value for double-Q losses",
     "masked means divide by the batch size (jnp.mean of error x mask), as masked_mse_loss documents",
-    "double-DQN cases whose online arg-max is decided by less than 1e-4 relative are excluded from the value clause",
+    "double-DQN cases whose online arg-max is decided by less than 1e-4 relative (but not exactly tied) are "
+    "excluded from the value clause",
+    "double-DQN rows whose online maximiser is exactly tied: the documented bootstrap Q'(o', argmax_a Q(o', a)) "
+    "admits any tied action per sample; the selection the library took is read from d loss / d reward_i (signed "
+    "TD error of row i) where that gradient reproduces the library's own scalar outputs, otherwise the admissible "
+    "combination that reproduces the scalar outputs best is taken (DiscreteSetup.resolve_ties); exactly equal "
+    "output units stay exactly equal under jit, eager evaluation and row permutation (checked on 990 networks)",
     "arbitrary finite junk for ignored successor data is bounded by 1e4 so that no network overflows to inf",
     "two-hot bins of the encoder loss span symexp(+-3) and rewards of that sub-check lie inside the bin range",
     "LayerNorm networks (MR.Q): tolerances are widened by 4x the movement of the reference under a 2^-21 relative "
@@ -1073,7 +1083,8 @@ def _runner(cls, kind):
 
 for _k in ("dqn", "nature_dqn", "ddqn", "ddqn_per"):
     _add(_k, discrete_builder(_k), _runner(DiscreteSetup, _k),
-         ", online arg-max differs from the target net's arg-max in a non-terminated row" if "ddqn" in _k else "")
+         ", online arg-max differs from the target net's arg-max in a non-terminated row or is exactly tied there "
+         "between actions whose target values differ" if "ddqn" in _k else "")
 
 
 # --------------------------------------------------------------------------- continuous family
